@@ -170,6 +170,7 @@ impl Oplog {
                         get_slices_checked(&existing, OplogSlot::Entries as usize)?.1;
                     let mut entries: Vec<Entry> = Vec::new();
                     let mut partials: Vec<bool> = Vec::new();
+                    let mut byte_lengths: Vec<u64> = Vec::new();
                     let header_bit = outcome.oplog.get_current_header_bit();
                     while let Some(entry_outcome) = Self::validate_leader(entries_buff)? {
                         // Entries written before the current header was flushed carry the
@@ -178,6 +179,7 @@ impl Oplog {
                             break;
                         }
                         let res = Entry::decode(entry_outcome.state)?;
+                        byte_lengths.push((entries_buff.len() - res.1.len()) as u64);
                         entries.push(res.0);
                         entries_buff = res.1;
                         partials.push(entry_outcome.partial_bit);
@@ -187,7 +189,11 @@ impl Oplog {
                     while !partials.is_empty() && partials[partials.len() - 1] {
                         entries.pop();
                         partials.pop();
+                        byte_lengths.pop();
                     }
+                    // New entries are appended after the ones that are already stored
+                    outcome.oplog.entries_length = entries.len() as u64;
+                    outcome.oplog.entries_byte_length = byte_lengths.iter().sum();
                     outcome.entries = Some(entries.into_boxed_slice());
                 }
                 Ok(Either::Right(outcome))
